@@ -21,10 +21,11 @@ def sc(r, K=2, extra=(), tag='', unwind=3, threads=2):
 
 
 def scenarios(tier):
-    s = [sc(1), sc(10), sc(1, extra=['ACQ_IF_EQUAL'], tag='-acq-if-equal'), sc(10, extra=['COPY_GUARD'], tag='-copy'), sc(1, extra=['MOVE_GUARD'], tag='-move')]
+    s = [sc(1), sc(10), sc(1, extra=['ACQ_IF_EQUAL'], tag='-acq-if-equal'), sc(10, extra=['COPY_GUARD'], tag='-copy'), sc(1, extra=['MOVE_GUARD'], tag='-move'),
+         sc(1, extra=['ORDER_SRW'], tag='-scanner-reader-writer', threads=3)]
     if tier == 'thorough':
         s += [sc(r) for r in (2, 3, 4, 5, 6, 7, 8, 9, 11, 12)] + [sc(5, extra=['COPY_GUARD'], tag='-copy')]
         s += [sc(1, K=3), sc(5, K=3), sc(10, K=3), sc(3, K=3)]
-        s += [sc(1, extra=['SCANNER'], tag='-3threads', threads=3), sc(1, extra=['ORDER_SRW'], tag='-scanner-reader-writer', threads=3), sc(5, extra=['USE_REGION'], tag='-region'), sc(6, extra=['USE_REGION'], tag='-region'),
+        s += [sc(1, extra=['SCANNER'], tag='-3threads', threads=3), sc(5, extra=['USE_REGION'], tag='-region'), sc(6, extra=['USE_REGION'], tag='-region'),
               sc(5, extra=['SECOND_RETIRE'], tag='-2retire')]
     return s
